@@ -138,6 +138,12 @@ theorem C14_exclusive (fs : FS) (r : Rule) (h : finish fs = some r) :
   cases del <;> cases watch <;> cases sys <;> simp at h ⊢
   cases hp : fs.prepend <;> cases ha : fs.append <;> simp [hp, ha] at h ⊢
 
+/-- a flag counts by having been given, not by what its value left behind: a `-w` or `-p` whose value is the empty
+word still makes a delete-all or a syscall line a mixed one (the class is decided over the flags *visited*). -/
+example : parseArgs [ofString "-D", ofString "-p", []] = none ∧
+    parseArgs [ofString "-a", ofString "always,exit", ofString "-S", ofString "open", ofString "-w", []] = none := by
+  constructor <;> decide +kernel
+
 /-- A repeated -w, -a or -A is an error (no occurrence is silently overridden). -/
 theorem C14_single_valued (fs : FS) (value : Bytes) :
     (fs.pathSet = true → setFlag fs 119 value = none) ∧
